@@ -17,6 +17,7 @@ type modEntry struct {
 	pred   modPred // membership of an object in the entry
 	single Term    // the single object, if the entry denotes exactly one ("" for regions / globals)
 	global bool
+	guard  Term // the entry is void unless this holds (a nil pointer on the access path denotes no location)
 }
 
 // refSet is a set of object references denoted by the base of a location expression.
@@ -30,8 +31,74 @@ func singleRef(r Term, t types.Type) refSet {
 	return refSet{pred: func(o Term) Term { return eq(o, r) }, single: r, typ: t}
 }
 
+// defGuard: every pointer dereferenced on the access path of a location expression is non-nil.
+func (env *Env) defGuard(e *Expr) Term {
+	var conj []Term
+	var walk func(x *Expr)
+	walk = func(x *Expr) {
+		if x == nil {
+			return
+		}
+		switch x.Op {
+		case "sel":
+			b := x.Args[0]
+			walk(b)
+			if b.Op == "call" && b.Name == "all" {
+				return
+			}
+			func() {
+				defer func() { recover() }()
+				v := env.eval(b)
+				if v.GT != nil {
+					if _, ok := v.GT.Underlying().(*types.Pointer); ok {
+						conj = append(conj, not(eq(v.T, "0")))
+					}
+				}
+			}()
+		case "deref":
+			walk(x.Args[0])
+			func() {
+				defer func() { recover() }()
+				v := env.eval(x.Args[0])
+				conj = append(conj, not(eq(v.T, "0")))
+			}()
+		case "idx", "slice":
+			walk(x.Args[0])
+		case "call":
+			for _, a := range x.Args {
+				walk(a)
+			}
+			if (x.Name == "bufv" || x.Name == "bsBits") && len(x.Args) == 1 {
+				func() {
+					defer func() { recover() }()
+					v := env.eval(x.Args[0])
+					if v.S == SInt {
+						conj = append(conj, not(eq(v.T, "0")))
+					}
+				}()
+			}
+		}
+	}
+	walk(e)
+	return and(conj...)
+}
+
 // locEntries interprets one location expression of a modifies clause.
 func (env *Env) locEntries(e *Expr) []modEntry {
+	g := env.defGuard(e)
+	es := env.locEntries0(e)
+	if g == "true" {
+		return es
+	}
+	for i := range es {
+		p := es[i].pred
+		es[i].pred = func(o Term) Term { return and(g, p(o)) }
+		es[i].guard = g
+	}
+	return es
+}
+
+func (env *Env) locEntries0(e *Expr) []modEntry {
 	w := env.w
 	mk := func(key string, rs refSet) modEntry { return modEntry{key: key, pred: rs.pred, single: rs.single} }
 	var allFields func(rs refSet, st types.Type) []modEntry
@@ -585,7 +652,14 @@ func (fc *FnCtx) applyContract(ci *calleeInfo, args []Val, writes map[string]boo
 				continue
 			}
 			if me.single != "" {
-				fc.frameCheck(k, me.single, what)
+				if me.guard != "" && me.guard != "true" {
+					saveR := fc.reach
+					fc.reach = and(fc.reach, me.guard)
+					fc.frameCheck(k, me.single, what)
+					fc.reach = saveR
+				} else {
+					fc.frameCheck(k, me.single, what)
+				}
 			} else if !fc.isInit {
 				o := "o!f"
 				var alts []Term
@@ -635,6 +709,9 @@ func (fc *FnCtx) applyContract(ci *calleeInfo, args []Val, writes map[string]boo
 				}
 				seen[me.single] = true
 				v := fc.fresh(sanitize(k)+"_v", inner)
+				if me.guard != "" && me.guard != "true" {
+					v = ite(me.guard, v, sel(t, me.single))
+				}
 				t = store(t, me.single, v)
 			}
 			if t != old {
